@@ -6,7 +6,7 @@ slow-hash keys growing through several doublings (Find of every key, bit-exact r
 number of full-hash recomputations)."""
 import os
 
-GEN = ['gen_base.json', 'gen_open2n2.json', 'gen_o2mp.json', 'gen_limp4.json', 'gen_one.json']
+GEN = ['gen_base.json', 'gen_open2n2.json', 'gen_o2set.json', 'gen_o2mp.json', 'gen_limp4.json', 'gen_one.json']
 M64 = (1 << 64) - 1
 
 def qof(L): return (L + 6) // 8
@@ -244,6 +244,10 @@ def set_cases(ctx, scale):
                 else: ops.append('i %d' % r.range(1, 1500))
             ops.append('r %d' % r.choice([10, 11, 17, 18, 19]))
             cs.append('set %s %d %d %d %s' % (kind, mode, param, start, ' '.join(ops)))
+    # model-growth round: a search bound above 255 (exponent bits of mState[1] in use: > 765 elements with one start bucket), then
+    # removals FROM that start bucket (Remove writes the same byte as the bound) and more inserts; every key must still be found
+    for kind in ('o2', 'o8'):
+        cs.append('set %s 1 20 0 i 900 %s' % (kind, ' '.join(['e 0'] * 40)))     # no growth afterwards: the final pass must find every key
     # audit round: bucket parameters and key categories the quantifier names but the main kinds do not reach
     #   maxCount variants (LimP4<1..3>, Open2N2<1,2>), 4-byte / 16-byte / std::string keys (LimP4 minMemPoolIndex 1 and 2,
     #   BucketOne with a 32-bit state = always recompute), every public operation that can precede a growth
